@@ -136,6 +136,11 @@ fn sibling(line: &str, cid: usize, rng: &mut Rng) -> Option<String> {
     let cand: Vec<&str> = ["1", "2", "3", "", "ab"].iter().cloned().filter(|v| *v != old).collect();
     ps[i].1 = rng.pick(&cand).to_string();
     let kind = field(&parts, "kind")?;
+    // a vector of the OTHER kind without any child: it contributes no sample, so the family keeps one kind (not the K2 class)
+    if (kind == "countervec" || kind == "gaugevec") && rng.chance(35) {
+        let other = if kind == "countervec" { "gaugevec" } else { "countervec" };
+        return Some(parts.iter().enumerate().map(|(j, p)| if j == 2 { format!("c{}", cid) } else if p.starts_with("kind=") { format!("kind={}", other) } else if p.starts_with("consts=") { format!("consts={}", pairs_str(&ps)) } else if p.starts_with("children=") { "children=none".to_string() } else { p.to_string() }).collect::<Vec<_>>().join(" "));
+    }
     let nk = match kind { "counter" => *rng.pick(&["counter", "intcounter"]), "intcounter" => *rng.pick(&["counter", "intcounter"]), "gauge" => *rng.pick(&["gauge", "intgauge"]), "intgauge" => *rng.pick(&["gauge", "intgauge"]), k => k };
     Some(parts.iter().enumerate().map(|(j, p)| if j == 2 { format!("c{}", cid) } else if p.starts_with("kind=") { format!("kind={}", nk) } else if p.starts_with("consts=") { format!("consts={}", pairs_str(&ps)) } else { p.to_string() }).collect::<Vec<_>>().join(" "))
 }
@@ -153,6 +158,8 @@ impl Area for RegArea {
             // F7 / F8 witnesses (fixed)
             s(&["reg new prefix=39206261 labels=none"]), s(&["reg new prefix=none labels=6261642d6e616d65:31"]),
             s(&["reg new prefix=none labels=61:636f6d6d6f6e", "reg def c0 kind=counter name=6d help=68 consts=61:6f776e vars=- val=3ff0000000000000", "reg register c0", "reg gather"]),
+            // an empty vector of another kind under the same name contributes nothing: the family keeps the type of the collector that has samples
+            s(&["reg new prefix=none labels=none", "reg def c0 kind=countervec name=6d help=68 consts=6b:31 vars=6c children=none", "reg def c1 kind=gaugevec name=6d help=68 consts=6b:32 vars=6c children=61;62", "reg register c0", "reg register c1", "reg gather", "reg unregister c0", "reg register c0", "reg gather"]),
             // K2 witness (known finding): counter and gauge under one name
             s(&["reg new prefix=none labels=none", "reg def c0 kind=counter name=6d help=68 consts=6b:31 vars=- val=3ff0000000000000", "reg def c1 kind=gauge name=6d help=68 consts=6b:32 vars=- val=4000000000000000", "reg register c0", "reg register c1", "reg gather"]),
         ]
